@@ -13,7 +13,7 @@ row("C02", True, "E-INPUT",
 
 row("C03", True, "E-INPUT",
     "bounded exhaustive input enumeration vs reference lexer (model checking of the real lexer over all strings up to a length bound)",
-    "Every string over five small character alphabets (general, numeric, quoted-string bodies, block-string bodies, punctuators) up to a length bound is lexed by the real Lexer; tiling, maximal munch at every token offset, accept/reject and token sequence are compared with an independent reference lexer. Exhaustive within the bound, so any lexer state-machine slip reachable with a short input is found.",
+    "Every string over six small character alphabets (general, numeric, quoted-string bodies, the four hex digits of a \\u escape, block-string bodies, punctuators) up to a length bound is lexed by the real Lexer; tiling, maximal munch at every token offset, accept/reject and token sequence are compared with an independent reference lexer. Exhaustive within the bound, so any lexer state-machine slip reachable with a short input is found.",
     "Trusted: refmodel::lex as a transcription of spec §2.1 (unit-tested on the spec examples); error re-synchronisation policy is not compared; inputs outside the alphabets/lengths are not covered.")
 
 row("C04", True, "E-INPUT",
